@@ -182,8 +182,9 @@ UPD = REG.add(Contract(
         first_named(cv(c, old=True), c.a["mnemonic"].t, kk),
         z3.Or(z3.Select(c.h("data"), cv(c).item(kk)) == c.a["data"].t, c.h("data") == c.old("data"))))),
         ("curve-list-unchanged", z3.And(cv(c).n == cv(c, old=True).n, cv(c).A == cv(c, old=True).A)),
-        ("the-new-array-is-bound-to-the-curve: no-existing-array-is-refilled-in-place (it may be shared with another curve or LASFile)",
-         z3.ForAll([z3.Const("any_obj", PyObj)], z3.Not(z3.Select(c.g("$mutated"), z3.Const("any_obj", PyObj)))))],
+        ] + ([("the-new-array-is-bound-to-the-curve: no-existing-array-is-refilled-in-place (it may be shared with another curve or LASFile)",
+               z3.ForAll([z3.Const("any_obj", PyObj)], z3.Not(z3.Select(c.g("$mutated"), z3.Const("any_obj", PyObj)))))]
+             if c.st.ghost.get("$mutated") is not None else []),
     modifies={"data": lambda c, r: z3.Exists([kk], z3.And(first_named(cv(c), c.a["mnemonic"].t, kk), cv(c).item(kk) == r))},
     ghost_init=LI.get_ghost, abstract_exprs=True,
     properties=("C14",)))
